@@ -468,6 +468,22 @@ func (fe *FnEnc) bitop(op token.Token, at, bt string, w int, signed bool) string
 			}
 		}
 	}
+	if w <= 8 && op == token.OR && !aConst && !bConst {
+		// 8-bit or of two non-constant values: a function symbol with its exact definition (bit decomposition, unfolded
+		// by pattern) and the idempotence law (a theorem of that definition, spelled out because proving it through
+		// eight div/mod digits is slow): (a | b) | b == a | b
+		fn := "bor8"
+		if !s.funSeen[fn] {
+			s.declFun(fn, []string{"Int", "Int"}, "Int")
+			var parts []string
+			for i := 0; i < 8; i++ {
+				parts = append(parts, fmt.Sprintf("(* %s (ite (or (= (mod (div a %s) 2) 1) (= (mod (div b %s) 2) 1)) 1 0))", pow2s(i), pow2s(i), pow2s(i)))
+			}
+			s.axioms = append(s.axioms, "(assert (forall ((a Int) (b Int)) (! (= (bor8 a b) (+ "+strings.Join(parts, " ")+")) :pattern ((bor8 a b)))))")
+			s.axioms = append(s.axioms, "(assert (forall ((a Int) (b Int)) (! (= (bor8 (bor8 a b) b) (bor8 a b)) :pattern ((bor8 (bor8 a b) b)))))")
+		}
+		return "(bor8 " + at + " " + bt + ")"
+	}
 	if w <= 8 {
 		// exact bit decomposition
 		var parts []string
@@ -895,7 +911,7 @@ func (fe *FnEnc) alloc(x *ssa.Alloc) Val {
 		}
 		keys := s.store(fe.mem, a, s.zero(et))
 		fe.recordMod(append(keys, "ghost:"+k))
-		if gd := fe.g.guardFor(et); gd != nil {
+		if gd := fe.g.guardFor(et); gd != nil && gd.Mutex != "none" {
 			// a fresh object's mutex is free
 			gk := "lock_" + mangle(types.TypeString(et, nil)) + "_" + gd.Mutex
 			fe.g.ghostSorts[gk] = "(Array Int Int)"
@@ -1170,6 +1186,20 @@ func (fe *FnEnc) guardCheck(a *Addr, write bool, pos token.Pos) {
 		return
 	}
 	top := fe.top
+	if gd.Mutex == "none" {
+		// "guarded T none: f": objects of T are shared between goroutines and f has no guard at all, so a
+		// plain write to f is a data race unless the object was allocated by this very call (any function)
+		st, _ := structOf(a.RootT)
+		fname := st.Field(a.Steps[0].Field).Name()
+		if !gd.Fields[fname] || !write {
+			return
+		}
+		nk := "next_" + sortID(fe.s.sortOf(a.RootT))
+		cond := "(>= " + a.Ref + " " + fe.s.ghostGet(fe.top.entryMem, nk, "Int") + ")"
+		top.sites["lock:write"]++
+		fe.check("lock:write", fmt.Sprintf("@%d.%s", top.sites["lock:write"], fname), cond, "write to "+fname+", a field of a shared object that no lock guards, only on objects allocated by this call", pos)
+		return
+	}
 	recv := top.fn.Signature.Recv()
 	if recv == nil {
 		return
